@@ -126,6 +126,23 @@ def handleListing (j : Json) : Except String Json := do
     ("list", toJson (Listing.listNames false m)), ("listUnsorted", toJson (Listing.listNames true m)),
     ("choose", toJson ((Listing.chooseHere false m).map (·.name))), ("targets", Json.arr targets.toArray)]
 
+partial def analyzeTree (fs : Imports.FS) (depths : List (Nat × Nat)) (root : Nat) (name : String) :
+    Except Imports.Err Json := do
+  let t ← Imports.analyzeModule fs depths root
+  let subs ← t.subs.mapM (fun (n, r) => analyzeTree fs depths r n)
+  return Json.mkObj [("name", name), ("root", toJson root), ("files", toJson t.files),
+    ("recipes", toJson (t.recipes.map (fun d => (d.name, d.file)))),
+    ("vars", toJson (t.vars.map (fun d => (d.name, d.file)))), ("subs", Json.arr subs.toArray)]
+
+def handleImports (j : Json) : Except String Json := do
+  let fs : Imports.FS ← fromJson? (← j.getObjVal? "files")
+  match Imports.load fs 5000 with
+  | .error e => return Json.mkObj [("error", toJson e)]
+  | .ok (depths, log) =>
+    match analyzeTree fs depths 0 "" with
+    | .error e => return Json.mkObj [("error", toJson e)]
+    | .ok t => return Json.mkObj [("tree", t), ("loads", toJson log.length), ("depths", toJson depths)]
+
 def handle (line : String) : Json :=
   match Json.parse line with
   | .error e => Json.mkObj [("fatal", s!"parse: {e}")]
@@ -144,6 +161,7 @@ def handle (line : String) : Json :=
       | "unstable" => handleUnstable j
       | "analyze" => handleAnalyze j
       | "listing" => handleListing j
+      | "imports" => handleImports j
       | "shsplit" => handleShSplit j
       | _ => throw s!"unknown op {op}"
     match r with
